@@ -17,6 +17,11 @@ func init() {
 	props["C10"] = runC10
 	replayers["C10/parse"] = func(v rt.Violation) string {
 		c := rt.ReplayCtx("C10")
+		if _, has := v.Args["max_input_length"]; has {
+			old := roman.MaxInputLength
+			roman.MaxInputLength = int(rt.ArgInt(v, "max_input_length"))
+			defer func() { roman.MaxInputLength = old }()
+		}
 		c.Serial("replay", func(w *rt.W) { c10Case(w, rt.ArgString(v, "text"), roman.Rule(rt.ArgInt(v, "rule"))) })
 		return c.Report()
 	}
@@ -37,7 +42,7 @@ func romanTyped(err error) bool {
 }
 
 func c10Fail(w *rt.W, key, text string, r roman.Rule, path, got, want string) {
-	w.Fail(key, "parse", rt.Args("text", text, "rule", int(r), "path", path), got, want, path+" disagrees with the group-table reference evaluator")
+	w.Fail(key, "parse", rt.Args("text", text, "rule", int(r), "path", path, "max_input_length", roman.MaxInputLength), got, want, path+" disagrees with the group-table reference evaluator")
 }
 
 // c10Case feeds one text to every parsing entry point and judges each result.
@@ -361,6 +366,28 @@ func runC10(c *rt.Ctx) {
 				}
 			})
 		}
+		// runs of one letter of every length around the widths of small counters (4, 8 and 16 bits), in every group
+		// position, with the limit disabled: a run of five or more I, X, C, V, L or D is never a numeral
+		roman.MaxInputLength = 0
+		c.Parallel("long-runs-of-one-letter", 0, func(w *rt.W) {
+			lens := []int{4, 5, 6, 15, 16, 17, 18, 19, 20, 21, 255, 256, 257, 258, 259, 260, 261, 511, 512, 513, 516, 65535, 65536, 65537, 65540}
+			frames := [][2]string{{"", ""}, {"M", ""}, {"MD", "XL"}, {"MMCD", ""}, {"", "V"}, {"C", "IX"}, {"mm", "i"}, {"D", ""}}
+			n := 0
+			for _, L := range lens {
+				for _, letter := range []string{"I", "X", "C", "V", "L", "D", "M", "i", "x", "c", "m"} {
+					for _, fr := range frames {
+						n++
+						if n%w.NShards != w.Shard {
+							continue
+						}
+						c10Case(w, fr[0]+strings.Repeat(letter, L)+fr[1], 0)
+						c10Case(w, fr[0]+strings.Repeat(letter, L)+fr[1], roman.RuleDisableEmptyAsZero)
+						w.ClassN("long-run-of-one-letter", 1)
+					}
+				}
+			}
+		})
+		c.Require("long-run-of-one-letter", 2000)
 		roman.MaxInputLength = oldL
 		c.Require("long-numeral-with-limit-raised", 10000)
 	}
